@@ -299,6 +299,10 @@ func checkWebResponse(res *Result, c *churn, r *webReq, w *httptest.ResponseReco
 		return Finding{Property: "C20", Aspect: aspect, What: fmt.Sprintf("%s %s: %s", r.R.Method, target, what), Case: r}
 	}
 	want := r.Status
+	if want >= 400 && want < 500 && w.Code >= 400 && w.Code < 500 && w.Code != want {
+		res.drift(mk("status", fmt.Sprintf("status %d, the specification says %d (both are 4xx)", w.Code, want)))
+		return
+	}
 	if w.Code != want {
 		// a dump larger than the buffer it was given may be reported as a failure
 		if !(want == 200 && w.Code == 500 && bigDump) {
